@@ -80,7 +80,7 @@ fn single_choices(tier: Tier) -> &'static [usize] {
 }
 
 fn list_choices(tier: Tier) -> &'static [usize] {
-    tier.pick(&[0, 1, 2, 3, 4][..], &[0, 1, 2, 3, 4, 5, 6][..])
+    tier.pick(&[0, 1, 2, 3, 4, 6][..], &[0, 1, 2, 3, 4, 5, 6][..])
 }
 
 fn env(name: &str) -> Option<String> {
